@@ -345,7 +345,7 @@ PROPS = {
         },
         "lean_props": ["C16", "C01M", "C16U"],
         "facts": ["FrontFacts"],
-        "streams": [{"name": "crash", "corpus": True, "model": False}, HIST, RC, APIBM, {"name": "units", "corpus": True}],
+        "streams": [{"name": "crash", "corpus": True, "model": False}, HIST, HISTUC, RC, APIBM, {"name": "units", "corpus": True}],
         "also": [],
     },
     "C17": {
